@@ -236,6 +236,17 @@ def reconn_cases(chk, eng, pid, variants, reps):
     through the hook; this reaches it through connect() itself)"""
     cases = [f"RECONN {v}" for v in variants for _ in range(reps)]
     impl = core.run_sharded([eng.harness, "codec"], eng.prelude, cases, shards=min(8, len(cases)), timeout=300)
+    # the same scenarios as histories of the client-object model (Model/ClientObj.v; theorem C12_reconnect_scenarios /
+    # C12_failed_handshake_repaired_example state these very outcomes)
+    pred = dict(zip(variants, eng.ask_model([f"OBJ repaired {v}" for v in variants])))
+    for c, im in zip(cases, impl):
+        f = dict(x.split("=", 1) for x in im.split()[1:] if "=" in x) if im.startswith("RECONN") else {}
+        want = pred[c.split()[1]].split()[1:]
+        got = [f.get(f"f{i + 1}", "?") for i in range(len(want))]
+        norm = lambda x: "err" if x in ("err", "senderr", "futerr") else x
+        racy = c.endswith("overlap")      # f1: whether the old connection's loss or the caller's look comes first is open
+        if f and any(norm(g) != w for i, (g, w) in enumerate(zip(got, want)) if not (racy and i == 0)):
+            chk.corr_break("reconnect scenario: the outcomes of the sends differ from the client-object model's", dict(case=c, impl=short(im), model=pred[c.split()[1]]))
     for c, im in zip(cases, impl):
         chk.case(c + im, True)
         chk.validated += 1
